@@ -68,6 +68,14 @@ CHECKS = {
   "text": "Seeded search over f_or / f_and with 1-5 inputs (plain, library, f_nocancel-wrapped, duplicates; some already finished at construction) x outcome assignments (truthy / falsy objects of several types, exception, cancellation, never) x 1-3 completer threads x an output cancel x schedules. Oracle: completions are intervals in the simulator's event sequence; every total order consistent with real-time precedence is enumerated (n <= 5) and the output must equal the fold of one of them, by object identity; pending losers receive cancel(), f_nocancel shields hold, a single input is returned as is, completing an input never raises out of the combinator's callback.",
   "note": "Inputs finished before the combinator was built are mutually unordered (the library observes them in argument order).",
   "design": "10 (C14)"},
+ "C15": {
+  "text": "Seeded search over f_zip / f_sequence / f_traverse with 0-6 inputs (plain and library futures, duplicates, generators; one 2000-input case per few thousand thorough runs) x outcome assignments (value, exception, cancelled, never) x 1-3 completer threads (some inputs already done) x an output cancel x schedules. Oracles: results in input order by object identity and the right container type, on failure the exception / cancellation of an input that can be first in some order consistent with real time, output cancel reaches every pending input, f_traverse calls fn once per element in iteration order and propagates its exception.",
+  "note": "Completions are intervals in the simulator's event sequence; inputs finished before construction are mutually unordered.",
+  "design": "10 (C15)"},
+ "C16": {
+  "text": "Seeded search over arities (0-4 positional, 0-3 keyword argument futures plus the function future; plain and library futures) x completion orders by 1-3 threads (some inputs already done) x failing inputs at any position x a raising function x schedules. Oracles by object identity: the function is called exactly once, only after every input's completion had begun, with every positional argument in its position and every keyword under its own name; the output is its return value or exception; with failing inputs the output carries one of their exceptions and the function ran at most once.",
+  "note": "Which of several failing inputs wins is left open, as the property does.",
+  "design": "10 (C16)"},
 }
 def main():
     checks = []
